@@ -352,6 +352,17 @@ def gen_input(rng, words, hot, max_len=2048, exotic=False, bulk=False, sizes=Non
     return bytes(out)
 
 
+def env_vars(rng):
+    """Process environment a result must not depend on."""
+    out = {}
+    for k, choices in (("HOME", ["@scratch", "/nonexistent", "/root"]), ("TMPDIR", ["@scratch", "/tmp"]), ("USER", ["root", "analyst", "nobody"]),
+                       ("LANG", ["C", "en_US.UTF-8", "de_DE.UTF-8", "tr_TR.UTF-8"]), ("TZ", ["UTC", "Asia/Tokyo", "America/St_Johns"]),
+                       ("COLUMNS", ["40", "200"]), ("TERM", ["dumb", "xterm-256color"]), ("NO_COLOR", ["1"]), ("PYTHONUTF8", ["1"])):
+        if rng.random() < 0.4:
+            out[k] = rng.choice(choices)
+    return out
+
+
 def io_knobs(rng):
     return {
         "chunk": rng.choice(["mixed", "mixed", "mixed", "one", "full", 3, 7, 64, 4096]),
@@ -630,7 +641,7 @@ def gen_c09(seed, shipped, tier="quick"):
             ops.insert(rng.randint(1, len(ops)), ["cli", m, rng.choice(["stdin", "file"]), ci])
         worlds.append({
             "hashseed": h, "enum_seed": e, "io_seed": rng.randrange(1 << 30), "env_seed": rng.randrange(1, 1 << 30), "io": io_knobs(rng),
-            "env": {"LC_ALL": rng.choice([None, "C", "C.UTF-8"]), "opt": rng.choice(["", "", "-O"])},
+            "env": {"LC_ALL": rng.choice([None, "C", "C.UTF-8"]), "opt": rng.choice(["", "", "-O"]), "vars": env_vars(rng)},
             "default_ctor": rng.random() < 0.5,
             "kwdir_form": rng.choice(KWDIR_FORMS),
             "lib_sched": lib_sched_spec(rng),
